@@ -159,7 +159,21 @@ pub fn make_iter<R: Read>(src: R, cfg: &RCfg) -> TagIterator<R, DynTag> {
         it.emit_master_end_when_eof((h >> 12) & 1 == 1);
     }
     if cfg.allow != 0 || with_history {
-        it.allow_errors(&allow_list(cfg.allow));
+        // the list handed over is a list, not a set: now and then entries are repeated and the order is reversed
+        let mut l = allow_list(cfg.allow);
+        if !l.is_empty() && (h >> 14) & 3 == 0 {
+            let k = ((h >> 16) as usize) % l.len();
+            let dup = allow_list(cfg.allow).swap_remove(k);
+            l.push(dup);
+            if (h >> 20) & 1 == 1 {
+                let dup2 = allow_list(cfg.allow).swap_remove(((h >> 21) as usize) % allow_list(cfg.allow).len());
+                l.insert(0, dup2);
+            }
+            if (h >> 24) & 1 == 1 {
+                l.reverse();
+            }
+        }
+        it.allow_errors(&l);
     }
     if let MaxSz::Set(m) = cfg.max_size {
         it.set_max_allowable_tag_size(m);
